@@ -62,6 +62,8 @@ SPEC = Spec(
         "marshalling paths are tied by 8 secret pairs per run (fixed classes incl. the empty secret, the marker itself, a 1200-byte one, + 3 drawn per run) x 2-4 shapes per path",
         "configuration structs keep opaque strings in exported fields (fmt cannot call methods on unexported fields: counted in the evidence, outside the property's containers)",
         "omitempty on an opaque field reveals whether the secret is empty (C14_encode_omitempty_reveals_emptiness); the non-interference theorem is stated for environments that agree on emptiness",
-        "types with their own confmap.Marshaler / yaml tags without mapstructure tags are outside the encoder model",
+        "types with their own confmap.Marshaler / yaml tags without mapstructure tags are inside the encoder model as the struct-level hook nodes GV.sh marshaler|yaml "
+        "(generator types C14Marsh = Marshal re-marshals a map, C14MarshMerge = Marshal merges raw values, C14Yaml = yaml tags only): what such a type's own "
+        "Marshal does is taken from these generator types and tied by the exact differential, other Marshal bodies are not modelled",
     ],
 )
